@@ -60,7 +60,7 @@ Res run_tcp(int mA, int mB, int scode, int layout, bool multihomed)
 		s.async_read_some(asio::buffer(buf), [&](error_code const& ec, std::size_t n) { if (ec) return; into.append(buf.data(), n); reader(s, into, buf); });
 	};
 	auto writer = [&](ip::tcp::socket& s, std::string const& data) {
-		if (layout == 0) asio::async_write(s, asio::buffer(data), [&](error_code const& ec, std::size_t) { if (ec) fail("write: " + ecs(ec)); });
+		if (layout == 0 || layout == 2) asio::async_write(s, asio::buffer(data), [&](error_code const& ec, std::size_t) { if (ec) fail("write: " + ecs(ec)); });
 		else {
 			// scatter/gather layout through async_write_some directly (the composed boost::asio::async_write with a
 			// multi-buffer sequence is not usable on these sockets, see DESIGN.md "observations"); the rest follows as one buffer
@@ -85,8 +85,10 @@ Res run_tcp(int mA, int mB, int scode, int layout, bool multihomed)
 		if (multihomed) { c[k].cli->open(ip::tcp::v4()); c[k].cli->bind(ip::tcp::endpoint(addr(k == 0 ? "10.0.0.1" : "10.0.0.2"), 0)); }
 		c[k].cli->async_connect(ip::tcp::endpoint(addr("10.0.1.1"), (unsigned short)(6000 + k)), [&, k](error_code const& ec) {
 			if (ec) { fail("connect: " + ecs(ec)); return; }
-			c[k].up_c = true; writer(*c[k].cli, c[k].wc); reader(*c[k].cli, c[k].rc, c[k].bc);
+			c[k].up_c = true; if (layout != 2) writer(*c[k].cli, c[k].wc); reader(*c[k].cli, c[k].rc, c[k].bc);
 		});
+		// layout 2: the connector writes right after async_connect(), before the handshake is over; the socket parks the write and resumes it itself
+		if (layout == 2) writer(*c[k].cli, c[k].wc);
 	}
 	sim.run();
 	for (int k = 0; k < 2; ++k) {
@@ -178,7 +180,7 @@ struct MtuEngine : Engine
 	uint64_t units(Args const&) override
 	{
 		all.clear();
-		for (int mh = 0; mh < 2; ++mh) for (int a = 0; a < 4; ++a) for (int b = 0; b < 4; ++b) for (int s = 0; s < 7; ++s) for (int l = 0; l < 2; ++l) all.push_back(U{ 0, MTUS[a], MTUS[b], s, l, mh });
+		for (int mh = 0; mh < 2; ++mh) for (int a = 0; a < 4; ++a) for (int b = 0; b < 4; ++b) for (int s = 0; s < 7; ++s) for (int l = 0; l < 3; ++l) all.push_back(U{ 0, MTUS[a], MTUS[b], s, l, mh });
 		for (int mh = 0; mh < 2; ++mh) for (int a = 0; a < 4; ++a) for (int s = 0; s < 7; ++s) for (int df = 0; df < 3; ++df) for (int dir = 0; dir < 2; ++dir) all.push_back(U{ 1, MTUS[a], s, df, dir, mh });
 		for (int a = 0; a < 4; ++a) for (int s = 0; s < 7; ++s) for (int df = 0; df < 3; ++df) for (int dir = 0; dir < 2; ++dir) { U u{ 1, MTUS[a], s, df, dir, 0 }; u.busy = 1; all.push_back(u); }
 		return all.size();
